@@ -18,6 +18,11 @@ func init() { Registry["C01"] = checkC01 }
 func checkC01(c *Ctx) {
 	c.R.NotCover = append(c.R.NotCover, "the matching relation itself (C06)", "payload identity through the rings (C14)", "exactly-once under interleavings of subscribe and publish (schedules)")
 	c.useRules(ruleP2, ruleP4, ruleP9, ruleP5, ruleP8, ruleL1)
+	// the message that is fanned out is a view of the publisher's incoming ring: it is used before its bytes are released
+	c.commitAfterUse()
+	// a resumed session is re-subscribed from the session's two parallel lists
+	c.useRules(ruleT5)
+	c.sessionTopicRecord()
 	c.resultListsReset()
 	c.wildcardCoversParent()
 	c.endOfLevelsSignal()
@@ -94,6 +99,24 @@ func (c *Ctx) fanOut(fn *ssa.Function) {
 	c.R.Check(topicOK && qosOK, ruleP2, name+":fan-out:lookup-uses-message-topic-and-qos", c.P.InstrPos(sc), "Subscribers(msg.Topic(), msg.QoS(), ...)", "the subscriber lookup is not made with the topic and QoS of the message being published: the wrong set of clients (or the wrong QoS) is selected")
 	subsPath := framePath(scN.F, a[3])
 	qossPath := framePath(scN.F, a[4])
+	// the lists the lookup fills belong to this call (locals) or to the connection, whose fan-out runs in its one
+	// processor goroutine - not to an API object whose methods run concurrently
+	{
+		bad := ""
+		for _, lp := range []ir.Path{subsPath, qossPath} {
+			if _, local := lp.Root.(*ssa.Alloc); local {
+				continue
+			}
+			owner := ""
+			if len(lp.Owners) > 0 && lp.Owners[0] != nil {
+				owner = lp.Owners[0].Obj().Name()
+			}
+			if owner != "service" {
+				bad = lp.String()
+			}
+		}
+		c.R.Check(bad == "", ruleP9, name+":fan-out:result-lists-private", c.P.InstrPos(sc), "the result lists are locals of the call or fields of the connection's service", "the subscriber lists of this fan-out live in "+bad+", storage shared by every caller of "+name+": a second publish that overlaps the first (from another goroutine, or from a subscriber callback of the first) refills the lists while the first is still delivering - its remaining deliveries go to the second publish's subscribers")
+	}
 	// the loop ranges over the list the lookup filled (in fn or in an inlined helper)
 	var loop *ir.Loop
 	var lf *paths.Frame
